@@ -152,7 +152,13 @@ func (m *maxDifferenceWatermarkGenerator) Run(ctx execution.ExecutionContext, pr
 			}
 		}
 
-		curTimeValueRoundedDown := time.Unix(0, record.Values[m.timeFieldIndex].Time.UnixNano()/int64(resolution.Duration)*int64(resolution.Duration))
+		curTimeNanos := record.Values[m.timeFieldIndex].Time.UnixNano()
+		remainder := curTimeNanos % int64(resolution.Duration)
+		if remainder < 0 {
+			// Go's integer division truncates toward zero; round pre-1970 times down, not up.
+			remainder += int64(resolution.Duration)
+		}
+		curTimeValueRoundedDown := time.Unix(0, curTimeNanos-remainder)
 
 		if curTimeValueRoundedDown.After(maxValue) {
 			maxValue = curTimeValueRoundedDown
